@@ -410,9 +410,13 @@ func (s *configurationStore) Watch(ctx context.Context, ch chan<- configapi.Conf
 						log.Error(err)
 						return
 					}
-					ch <- configapi.ConfigurationEvent{
+					replayed := configapi.ConfigurationEvent{
 						Type:          configapi.ConfigurationEvent_REPLAYED,
 						Configuration: *configuration,
+					}
+					select {
+					case ch <- replayed:
+					case <-ctx.Done():
 					}
 				}
 			} else {
@@ -441,9 +445,13 @@ func (s *configurationStore) Watch(ctx context.Context, ch chan<- configapi.Conf
 						log.Error(err)
 						return
 					}
-					ch <- configapi.ConfigurationEvent{
+					replayed := configapi.ConfigurationEvent{
 						Type:          configapi.ConfigurationEvent_REPLAYED,
 						Configuration: *configuration,
+					}
+					select {
+					case ch <- replayed:
+					case <-ctx.Done():
 					}
 				}
 			}
@@ -452,7 +460,10 @@ func (s *configurationStore) Watch(ctx context.Context, ch chan<- configapi.Conf
 		for {
 			select {
 			case event := <-eventCh:
-				ch <- event
+				select {
+				case ch <- event:
+				case <-ctx.Done():
+				}
 			case <-ctx.Done():
 				close(ch)
 				go func() {
